@@ -183,6 +183,31 @@ func vTickAlways(d time.Duration) *time.Ticker {
 
 func vNewTicker(d time.Duration) *vTicker { return &vTicker{C: v17Ticks} }
 
+// seams for the simulated sources (C10 build): a timer that has already fired / a data ticker that is ready, but
+// only vSimTicks times per execution (real time would space the blocks out; an always-ready tick would make
+// "produce blocks for ever" the canonical schedule), and a heartbeat ticker (1 s) that never fires.
+var vClosedTimeChan = func() chan time.Time { c := make(chan time.Time); close(c); return c }()
+var vSimTicks int
+
+func vAfter(d time.Duration) <-chan time.Time {
+	if vSimTicks > 0 {
+		vSimTicks--
+		return vClosedTimeChan
+	}
+	return nil
+}
+
+func vSimTicker(d time.Duration) *vTicker {
+	if d >= time.Second {
+		return &vTicker{C: nil}
+	}
+	c := make(chan time.Time, vSimTicks)
+	for i := 0; i < vSimTicks; i++ {
+		c <- time.Time{}
+	}
+	return &vTicker{C: c}
+}
+
 type v17Abaco struct {
 	*AbacoSource
 	done chan struct{}
